@@ -263,6 +263,34 @@ def task_extract(pr, repo):
     pr.explore(ex, thunk, 'extract_groups')
 
 
+def task_summary_rows(pr, repo):
+    """SR: the summary / determinant tables have a row for every group.  Code form (proved): a row unless the group was discarded due
+    to covalent coupling AND the configuration removes penalised groups.  Property form ('once in the reported summary', no exception):
+    refuted for exactly that case - recorded known finding D15."""
+    from . import C02
+    ex = Executor(repo)
+    for n in ('get_summary_string', 'get_determinant_string'):
+        pr.under_contract(repo.func(GM + 'Group.' + n))
+    for meth in ('get_summary_string', 'get_determinant_string'):
+        for discarded in (False, True):
+            for flag in (False, True):
+                def thunk(ex, ctx, meth=meth, discarded=discarded, flag=flag):
+                    g = C02.mkgroup(repo, 'g', (1, 0, 1), label='ASP   7 I', buried='real', num_volume='real', num_local='real',
+                                    coupled_titrating_group=None, non_covalently_coupled_groups=[], type='COO')
+                    g.attrs['atom'].attrs.update(type='atom')
+                    if discarded:
+                        g.attrs['coupled_titrating_group'] = C02.mkgroup(repo, 'nplus', (0, 0, 0), label='N+    7 I')
+                    r = ex.call_function(repo.func(GM + 'Group.' + meth), [flag], self_obj=g)
+                    has_row = not (isinstance(r, str) and r == '')
+                    ctx.oblige('SR(code form)[%s, discarded %s, remove_penalised_group %s]: a row is produced unless the group is '
+                               'discarded due to coupling and penalised groups are removed' % (meth, discarded, flag),
+                               has_row == (not (discarded and flag)))
+                    if discarded and flag:
+                        ctx.oblige('SR(property form)[%s]: a group discarded due to covalent coupling still has its row (every '
+                                   'ionizable site appears once in the reported summary)' % meth, has_row)
+                pr.explore(ex, thunk, '%s discarded=%s flag=%s' % (meth, discarded, flag))
+
+
 def ground(pr, repo):
     p = cfg.parameters()
     for k, v in TABLE.items():
@@ -279,6 +307,11 @@ def ground(pr, repo):
 
 
 def run(pr, repo):
+    pr.level = 'other'
+    pr.explanation = ('deductive core (VC, ground, frame) plus bounded census monitor; level "other" because one clause of the property '
+                      'does NOT hold on this tree (recorded known finding D15: a side chain covalently coupled to the N-terminus of its '
+                      'own residue - an N-terminal Asp, His or Cys - is discarded from the summary and determinant tables): its '
+                      'property-form obligations are refuted on every run and reported as KNOWN-FINDING, so discharged < obligations')
     ground(pr, repo)
     tasks = [(task_reader, (t,)) for t in reader.TAGS] + [(task_classify, ()), (task_setup, ()), (task_extract, ()),
                                                            (C02.task_sections, ()), (C08.task_average_twins, ()),
@@ -287,7 +320,7 @@ def run(pr, repo):
                                                            (C14.task_make_copy, ()),
                                                            # 'a cysteine in a disulfide bridge is reported as 99.99': every S-S
                                                            # pair within bonding distance is found, wherever it lies in the cell grid
-                                                           (C11.task_cell_lemma, ()), (C11.task_boxes_pair, ('S', 'S', False, (0,)))]
+                                                           (C11.task_cell_lemma, ()), (C11.task_boxes_pair, ('S', 'S', False, (0,))), (task_summary_rows, ())]
     pr.parallel(tasks)
     pr.assumptions += ['stutter/simulation rule lifts the per-record automaton to whole files; atom-name classes as listed in '
                        'props/reader.py', 'composition step "nothing else is reported" (bounded census monitor)',
@@ -379,6 +412,15 @@ def bounded(pr):
                     and not (g.coupled_titrating_group and mol.version.parameters.remove_penalised_group)])
         if len(rows) != nrep:
             bad.append('summary has %d rows for %d reportable groups' % (len(rows), nrep))
+        # property form: every site of the structure has a summary row - also a group discarded due to covalent coupling
+        labels = {r[0].strip() for r in rows}
+        for g in mol.conformations['AVR'].groups:
+            if g.residue_type in TABLE and g.atom.type == 'atom' and g.label.strip() not in labels and g.coupled_titrating_group:
+                viol.append({'what': '%s: %s is in the results (pKa %.2f) but has no row in the summary and determinant tables: discarded '
+                                     'due to covalent coupling with %s (remove_penalised_group)' % (
+                                         name, ' '.join(g.label.split()), g.pka_value, ' '.join(g.coupled_titrating_group.label.split())),
+                             'replay': None})
+                break
         for g in c.groups:
             if g.atom.cysteine_bridge and g.residue_type == 'CYS' and abs(g.pka_value - 99.99) > 1e-9:
                 bad.append('bridged CYS %s reported with %r' % (g.label, g.pka_value))
